@@ -18,6 +18,12 @@ type propFn func(c *fw.Ctx) int
 var props = map[string]propFn{}
 
 func main() {
+	// the sandbox is offline: child go commands must never try the network or another toolchain
+	for k, v := range map[string]string{"GOFLAGS": "-mod=mod", "GOPROXY": "off", "GOSUMDB": "off", "GOTOOLCHAIN": "local"} {
+		if os.Getenv(k) == "" {
+			os.Setenv(k, v)
+		}
+	}
 	if len(os.Args) < 2 {
 		fmt.Println("usage: corr <Cxx> [--tier quick|thorough] [--no-lean]")
 		os.Exit(2)
